@@ -565,6 +565,31 @@ def run(model, tier):
                                                           missing, why), node,
                                  construct=(src_of(used[0].node.test) if used else 'def %s' % anchor.name)))
                 continue
+            # the local names the guard compares must be defined as documented (a guard on `a - b` enforces the
+            # restriction only if a and b ARE the documented quantities)
+            bad_def = None
+            for lname, doc in (row.get('defs') or {}).items():
+                found = []
+                for f in fs:
+                    for st in ast.walk(f.node):
+                        if isinstance(st, ast.Assign) and len(st.targets) == 1 and isinstance(st.targets[0], ast.Name) \
+                                and st.targets[0].id == lname:
+                            found.append((f, st))
+                if len(found) != 1 or same_term(canon(found[0][1].value), doc) != 1:
+                    bad_def = (lname, doc, found)
+                    break
+            if bad_def is not None:
+                lname, doc, found = bad_def
+                f0, st0 = (found[0] if found else (anchor, None))
+                res.add(_finding('C20.guard', f0, '%s: %s is not the documented quantity' % (ci.name, lname),
+                                 "%s: the guard on `%s` (%s, %s) compares the local `%s`, which is %s instead of the documented `%s`: "
+                                 "the documented restriction is not the one enforced"
+                                 % (ci.name, row['term'], row['admissible'], row['source'], lname,
+                                    ('defined as `%s`' % canon(st0.value)) if st0 is not None and len(found) == 1 else
+                                    ('assigned %d times' % len(found)), doc),
+                                 st0 if st0 is not None else anchor.node,
+                                 construct=(src_of(st0) if st0 is not None else 'def %s' % anchor.name)))
+                continue
             res.discharged += 1
             res.sample({'class': ci.fullname, 'term': row['term'], 'documented': row['admissible'],
                         'rejected_by_guards': repr(rejected)}, limit=24)
